@@ -3,8 +3,12 @@ package main
 // levels and generation rules per property, written into the evidence file.
 var levels = map[string]string{
 	"C02": "fault_enumeration",
+	"C06": "fault_enumeration",
+	"C09": "exploration",
 }
 
 var rules = map[string]string{
 	"C02": "run = handshake variant x fault mask; enumerated: every drop mask over the first N datagrams of each direction for each of 13 variants (plus, thorough, every 5-action mask over the first 3 per direction), then seeded samples with random rates of drop/dup/hold, latencies and timer knobs; non-trivial = at least one fault actually fired; distinct = distinct hash of the full event trace (kinds, endpoints, datagram shapes, decisions)",
+	"C06": "run = established session of K records whose datagrams are captured and then presented to the receiver in a generated arrival sequence with repetition; enumerated: every arrival sequence of length L over K records for window sizes 1,2,3,64 (quick K=4,L=6; thorough K=5,L=7), then sampled sessions of up to 400 records with displacements around W-1/W/W+1 and duplicates, W in 1..256, 13 suite/CID/version configurations; oracle = 20-line window model; non-trivial = a duplicate, an out-of-window or a window-edge arrival occurred; distinct = distinct event-trace hash",
+	"C09": "run = session config x fault rules during the handshake x 1-4 writer goroutines per side x yield-point schedule (park probability 0-80%) x optional early writes, Close racing writes, injected datagrams; oracle = wire monitor over every datagram each endpoint handed to its socket: (epoch, seq) never repeats and increases per epoch in emission order (legacy headers; DTLS 1.3 unified headers are skipped because the sequence number is encrypted); non-trivial = scheduler parked at least once, a fault fired, or more than one writer; distinct = distinct event-trace hash",
 }
